@@ -89,22 +89,22 @@ Section Datatype.
 
   (* a user transaction: the body is a list of calls; [fail] = the body returns an error at the end.
      Results of the calls inside are returned for comparison. *)
-  Fixpoint tx_body (d : dt) (cs : list call) (ops : list op) (ents : list rbentry) (rs : list outcome)
-    : dt * list op * list rbentry * list outcome :=
+  Fixpoint tx_body (d : dt) (cs : list call) : dt * list op * list rbentry * list outcome :=
     match cs with
-    | [] => (d, ops, ents, rs)
+    | [] => (d, [], [], [])
     | c :: cs' =>
         let '(d', o, r) := local_step d c in
+        let '(d'', ops, ents, rs) := tx_body d' cs' in
         match o with
-        | Some o => tx_body d' cs' (ops ++ [o]) (ents ++ [RLocal c]) (rs ++ [r])
-        | None => tx_body d' cs' ops ents (rs ++ [r])
+        | Some o => (d'', o :: ops, RLocal c :: ents, r :: rs)
+        | None => (d'', ops, ents, r :: rs)
         end
     end.
 
   Definition transaction (d : dt) (tag : str) (cs : list call) (fail : bool) : dt * list outcome :=
     let ti := opid_next (d_oid d) in                        (* the TRANSACTION operation takes an id *)
     let d0 := mkDt (d_snap d) ti (d_buf d) (d_cp d) (d_rb_snap d) (d_rb_oid d) (d_rb_ops d) in
-    let '(d1, ops, ents, rs) := tx_body d0 cs [] [] [] in
+    let '(d1, ops, ents, rs) := tx_body d0 cs in
     if fail then
       (* Rollback: SetMetaAndSnapshot(rollback) ; Replay rollbackOps ; refresh the rollback point *)
       let '(s, i) := replay (d_rb_snap d) (d_rb_oid d) (d_rb_ops d) in
@@ -133,9 +133,9 @@ Section Datatype.
 
   Inductive rres := ROk (d : dt) | RError (d : dt) | RPanic | RDiverge.
 
-  (* units: a TRANSACTION operation announces NumOfOps (itself included); ops[i:i+n] is sliced
-     before any check: n <= 0 never advances (n = 0) or slices backwards (n < 0: panic),
-     i+n beyond the slice panics *)
+  (* units: a TRANSACTION operation announces NumOfOps (itself included).  A unit whose
+     count is < 1 or exceeds what was delivered is refused (error) and nothing of it is
+     applied; the units before it in the same batch stay applied. *)
   Fixpoint receive (fuel : nat) (d : dt) (ops : list op) : rres :=
     match fuel with
     | O => ROk d
@@ -143,9 +143,7 @@ Section Datatype.
         match ops with
         | [] => ROk d
         | OTx i tag n :: rest =>
-            if (n =? 0)%Z then RDiverge
-            else if (n <? 0)%Z then RPanic
-            else if (Z.of_nat (length ops) <? n)%Z then RPanic
+            if (n <? 1)%Z || (Z.of_nat (length ops) <? n)%Z then RError d
             else
               let unit := firstn (Z.to_nat n) ops in
               let rest' := skipn (Z.to_nat n) ops in
